@@ -4,12 +4,16 @@
        a pending timer is withheld exactly while an earlier-inserted, still pending timer of the same process has
        delay <= its own; a message is withheld exactly while an older identical copy is pending; in MessagesFirst
        mode timers are offered only when no message is.
-   (b) feasibility - PARTIAL: the real-time lemma (a blocker always fires first, for any ordered time algebra with
-       monotone addition, i.e. for all real-valued timings) is proved; the statement "every timed execution is a
-       path of offered choices" for whole systems is not proved here - it is checked by the hand-off inclusion
-       monitor of C04 on the implementation.  See DESIGN.md section 5, C13. *)
+   (b) feasibility: the real-time lemma (a blocker always fires first, for any ordered time algebra with monotone
+       addition, i.e. for all real-valued timings), and the system-level statement C13_feasible_schedules_explored
+       (= C04_stage2): every schedule the timed simulator realises from any reachable state - each message with any delay
+       within the bounds, each timer at its set time plus its delay, ties in creation order - is a path of offered
+       choices of the checker started from the snapshot, for override-free programs (known finding F10) and
+       corruption rate 0 (F13).  Timed executions are those of the simulator model (Model/Sim.v), i.e. delays are
+       drawn as min + r*(max-min) for arbitrary draws r in [0,1): any assignment of delays within [min,max]. *)
 From ASV Require Import Base.Util Base.Msg Model.Store Spec.StoreSpec
      Proofs.UtilP Proofs.StoreSpecP Proofs.StoreRefine Proofs.C20Lemmas Proofs.TimerOrder.
+Require ASV.Proofs.HandoffSim ASV.Proofs.HandoffSim2.
 
 Section C13.
   Context {T : Type} (tleb : T -> T -> bool).
@@ -51,6 +55,12 @@ Section C13b.
   Proof. exact (blocker_fires_first T tle tadd tle_trans tadd_mono_l tadd_mono_r). Qed.
 End C13b.
 
+(* (b) system level: = C04_stage2 *)
+Definition C13_feasible_schedules_explored := @ASV.Proofs.HandoffSim2.C04_stage2.
+Definition C13_feasible_schedules_explored_faultfree := @ASV.Proofs.HandoffSim.C04_stage1.
+
 Print Assumptions C13_withheld_exactly.
 Print Assumptions C13_messages_first.
 Print Assumptions C13_blocker_fires_first_partial.
+Print Assumptions C13_feasible_schedules_explored.
+Print Assumptions C13_feasible_schedules_explored_faultfree.
